@@ -87,10 +87,91 @@ def c18_jobs(tier):
     ]
 
 
+def c19_jobs(tier):
+    q = tier == "quick"
+    positions = [0, 31] if q else [0, 3, 4, 15, 16, 27, 28, 31]
+    jobs = [
+        Job("login-xor-recorder", "C19_login.c", defs={"MODE": 1}, units=["login.c"], unwind=34,
+            desc="login_calculate with MD5 recorder: hashed bytes == pass XOR big-endian challenge, for all pass/seed",
+            bounds="all 2^256 password blocks x all 2^32 challenges x buflen 0..20", functions=["login_calculate"]),
+        Job("md5-login-vectors", "C19_login.c", defs={"MODE": 3}, units=["login.c", "md5.c"], unwind=66, checks=False,
+            desc="RFC 1321 vectors through md5.c and the reference; login_calculate+md5.c vs reference on 4 concrete challenges",
+            bounds="concrete", functions=["login_calculate", "md5_init", "md5_append", "md5_process", "md5_finish"], timeout=900),
+    ]
+    for pos in positions:
+        jobs.append(Job("md5-equiv-pos%d" % pos, "C19_login.c", defs={"MODE": 2, "K": 1, "POS0": pos, "BASE": 17 + pos},
+                        units=["md5.c"], unwind=66, checks=False,
+                        desc="md5.c vs independent RFC 1321 implementation: 32-byte message, one fully symbolic byte",
+                        bounds="32-byte message, fixed pattern, byte %d symbolic (256 messages decided by one query)" % pos,
+                        functions=["md5_init", "md5_append", "md5_process", "md5_finish"], timeout=900))
+    return jobs
+
+
+SERVER_UNITS = ["dns.c", "read.c", "encoding.c", "base32.c", "base64.c", "base64u.c", "base128.c",
+                "user.c", "fw_query.c", "login.c", "md5.c"]
+SERVER_HUNITS = ["vunit_common.c"]
+# read.c copies with data-dependent lengths (putname, puttxtbin, readdata, readtxtbin): CBMC's built-in
+# memcpy with a symbolic length is extremely expensive, so read.c is compiled with memcpy -> vmemcpy,
+# a plain byte loop defined in harness/vlibc_mem.c (semantically identical for non-overlapping copies)
+READ_LOOPCPY = {"read.c": {"memcpy": "vmemcpy"}}
+
+
+def c20_jobs(tier):
+    k = 20 if tier == "quick" else 36
+    nm = 6 if tier == "quick" else 9
+    jobs = [
+        Job("fwq-ring-K%d" % k, "C20_fwquery.c", defs={"KOPS": k}, units=["fw_query.c"], unwind=k + 2,
+            desc="fw_query_put x m (symbolic ids/addresses) then fw_query_get(symbolic id) vs ghost list of the last 16 puts",
+            bounds="0..%d forwards from the initial state, ids 16-bit symbolic, 6 symbolic address bytes + length" % k,
+            functions=["fw_query_init", "fw_query_put", "fw_query_get"], timeout=900),
+    ] + [
+        Job("forward-query-v%d" % (6 if fam else 4), "C20_forward.c",
+            defs={"MODE": 1, "NAMEMAX": nm, "FAM6": fam, "VL_STRDUP_MAX": nm + 2},
+            units=SERVER_UNITS, hunits=SERVER_HUNITS + ["vlibc_mem.c"], unit_defs=READ_LOOPCPY,
+            scale=512, subst=SHRINK_DNSCACHE, unwind=100, checks=False,
+            loops={"strlen": nm + 2, "strtok": nm + 2, "vl_isdelim": 3, "vmemcpy": nm + 1, "strcpy": nm + 2,
+                   "legal_name": nm + 2, "putname": nm // 2 + 3, "rm_name": nm + 2, "rm_streq": nm + 2, "strdup": nm + 2,
+                   "sendto": nm + 34},
+            desc="forward_query: relayed datagram parsed by strict oracle (same id/name/type, to 127.0.0.1:port), requester remembered",
+            bounds="legal dotted name 1..%d chars (labels 1..63), id/type/requester address symbolic, IPv%d requester"
+                   % (nm, 6 if fam else 4),
+            functions=["forward_query", "dns_encode", "putname", "fw_query_put", "fw_query_get"], timeout=1200)
+        for fam in (0, 1)
+    ] + [
+        Job("tunnel-bind", "C20_forward.c", defs={"MODE": 2}, units=SERVER_UNITS, hunits=SERVER_HUNITS, scale=512,
+            subst=SHRINK_DNSCACHE, unwind=100,
+            desc="tunnel_bind: arbitrary reply after <=3 forwards is relayed unchanged to the matching requester or dropped",
+            bounds="reply -1..32 bytes arbitrary, 0..3 remembered requesters (non-zero ids, v4/v6)",
+            functions=["tunnel_bind", "dns_get_id", "fw_query_get"], timeout=900),
+    ]
+    return jobs
+
+
 HOOK_COMMITS = []
 PENDING = {}
 
 PROPS = {
+    "C20": {
+        "jobs": c20_jobs, "level": "model_checking",
+        "level_text": "Ring lemma by bounded symbolic execution from the initial state (more than 16 outstanding forwards, ids free "
+                      "16-bit values so the solver chooses the collisions), plus forward_query/tunnel_bind with a strict reference "
+                      "parser on the relayed datagram.",
+        "level_note": "<= 20 (quick) / 36 (thorough) forwards since start; sendto/recvfrom are recorder stubs; names <= 20 chars.",
+        "explanation": "one SAT query per harness; the lookup id and every put are symbolic",
+        "assumptions": ["sendto/recvfrom stubs record/deliver arbitrary datagrams", "inet_addr(\"127.0.0.1\") modelled",
+                        "strtok/strdup models (vlibc.h)"],
+    },
+    "C19": {
+        "jobs": c19_jobs, "level": "model_checking",
+        "level_text": "login_calculate's XOR/endianness/length is decided for all 2^288 (password, challenge) pairs with MD5 replaced "
+                      "by a recorder; md5.c is compared to an independent RFC 1321 implementation on a bounded symbolic "
+                      "sub-space of 32-byte messages plus concrete vectors (full 256-bit equivalence did not finish on any back end).",
+        "level_note": "MD5 equivalence only on 32-byte messages with one symbolic byte per query (2 positions quick, 8 thorough) plus "
+                      "the RFC 1321 vectors: MD5 resists SAT, 2 symbolic bytes did not finish in 400 s on any back end; "
+                      "raw-mode challenge+1/-1 call sites are checked under C03 (server) - see DESIGN.md.",
+        "explanation": "split: (a) xor/endianness/length exact for all inputs, (b) md5.c==MD5 on a bounded sub-space, (c) concrete pipeline vectors",
+        "assumptions": ["MD5 equivalence restricted to the stated sub-space", "little-endian x86-64 target as in the real build"],
+    },
     "C18": {
         "jobs": c18_jobs, "level": "model_checking",
         "level_text": "init_users executed symbolically for every server address and every prefix length 8..30 in one query; "
